@@ -96,6 +96,16 @@ def shard_env():
     return env
 
 
+ENVIRONMENT_ASSUMPTIONS = [
+    "environment driven: CPython of /venv, string-hash seed varied per shard, one extra shard under `python -O`; where a check "
+    "says so also concurrent threads (each with objects of its own) and a jumping wall clock",
+    "environment NOT driven, by decision: warning filters that turn warnings into errors, a numpy error state or decimal context "
+    "changed by the caller (the unchanged sampler itself relies on numpy's default 0/0 -> nan in its flat check), absence of a "
+    "declared dependency (numpy, scipy, matplotlib, BioPython) or another version of one, one object shared between threads "
+    "(the unchanged delta-max search publishes intermediate values on the object), str subclasses with their own __str__",
+]
+
+
 def run_shards(pid, tier, seed, nshards, watchdog):
     tmp = tempfile.mkdtemp(prefix="lcverif_%s_" % pid)
     procs = []
@@ -221,7 +231,7 @@ def main(argv=None):
         cov["exhaustive_scope"] = mod.EXHAUSTIVE_NOTE.get(args.tier, "")
     ev = {
         "property_id": pid, "tier": args.tier, "seed": seed, "level": level, "coverage": cov,
-        "assumptions": list(getattr(mod, "ASSUMPTIONS", [])), "wall_s": round(wall, 2),
+        "assumptions": list(getattr(mod, "ASSUMPTIONS", [])) + ENVIRONMENT_ASSUMPTIONS, "wall_s": round(wall, 2),
         "violations": len(fresh),
     }
     evdir = os.environ.get("LCVERIF_EVIDENCE_DIR") or os.path.join(VERIF, "evidence")
